@@ -635,8 +635,9 @@ pub fn run_invocation(scratch: &mut Scratch, tree: &Tree, inv: &Inv, out: &Path)
         // the unique bare name depends on the scratch area: keep it out of the event log
         let canonical = format!("out/{}", inv.out_name());
         for op in o.oplog.iter_mut() {
-            if op.path == name {
-                op.path = canonical.clone();
+            // (also names derived from it, e.g. a temporary file next to the target)
+            if op.path.contains(&name) {
+                op.path = op.path.replace(&name, &canonical);
             }
         }
         o.err_text = o.err_text.replace(&name, &canonical);
